@@ -13,6 +13,15 @@
 //!   eu <ap> <au> <bp> <bu> <cp> <cu>
 //!   rat <a> <b> <c>                     naturals (the only values constructible through the API)
 //!   poly (real|ff11) <len> <k> <c_0..c_{k-1}>  x3    integer coefficients, rest of the array zero
+//!   realw <mask> <a> <b> <c>            wide-magnitude f64 operands, each written <m>p<e> = m * 2^e
+//!   cxw   <mask> <6 components>         (m a decimal integer, |m| < 2^53); <mask> has one 0/1 per battery
+//!   euw   <mask> <6 components>         entry: 1 = every exact value occurring in the textbook evaluation
+//!                                       of that entry (operands, each real product, each sum, the result)
+//!                                       is representable in f64.  Only entries marked 1 are printed
+//!                                       (the others as ~) and compared; the harness recomputes the mask
+//!                                       with exact dyadic arithmetic and rejects a case that claims more.
+//! FiniteField<P> is instantiated for the exported primes, 2,3,5,7,11 and the further moduli EXTRA
+//! (the type is generic in P; C13_ff_any_modulus covers every 1 < P <= 2^127).
 //! The oracle recomputes every battery entry with independent exact arithmetic (256-bit
 //! shift-subtract modular product, i128 fractions, integer convolution) and checks the laws
 //! on the implementation's own results.
@@ -36,6 +45,17 @@ const EXPORTED: [u128; 7] = [
     primes::U128_LARGE_4,
 ];
 const SMALL: [u128; 5] = [2, 3, 5, 7, 11];
+// further moduli of the generic FiniteField<const P: u128> (not exported constants): Mersenne primes
+// below and above 2^96, the first prime above 2^96, a composite just below 2^127 and the largest
+// modulus admitted by the model's side condition 2P <= 2^128
+const M61: u128 = (1u128 << 61) - 1;
+const M89: u128 = (1u128 << 89) - 1;
+const P96: u128 = (1u128 << 96) + 61;
+const M107: u128 = (1u128 << 107) - 1;
+const M127: u128 = (1u128 << 127) - 1;
+const C127: u128 = (1u128 << 127) - 3; // = 5 * 34028236692093846346337460743176821145
+const T127: u128 = 1u128 << 127;
+const EXTRA: [u128; 7] = [M61, M89, P96, M107, M127, C127, T127];
 
 // ------------------------------------------------------------------------------------------
 // generation
@@ -94,6 +114,75 @@ fn gen_poly_operand(rng: &mut Rng, ff: bool, malformed: bool) -> String {
     s
 }
 
+/// one component of a wide-magnitude operand: 0, +-1, +-2^k, (small integer) * 2^k, or a plain
+/// integer of 20..31 bits (products near 2^53..2^62)
+fn wide_comp(rng: &mut Rng, fam: u64, kmax: i32, neg_exp: bool) -> Dy {
+    let sign = |rng: &mut Rng| if rng.chance(1, 3) { -1i128 } else { 1 };
+    let expo = |rng: &mut Rng| {
+        let k = match rng.below(4) {
+            0 => kmax,
+            1 => rng.below(4) as i32,
+            _ => rng.below(kmax as u64 + 1) as i32,
+        };
+        if neg_exp && rng.coin() {
+            -k
+        } else {
+            k
+        }
+    };
+    match fam {
+        // 0, +-1, +-2^k
+        0 => match rng.below(6) {
+            0 => DY0,
+            1 => Dy { m: sign(rng), e: 0 },
+            _ => Dy { m: sign(rng), e: expo(rng) },
+        },
+        // small integer * 2^k
+        1 => {
+            let m = if rng.coin() { rng.below(16) as i128 } else { rng.below(1024) as i128 };
+            Dy::norm(sign(rng) * m, expo(rng))
+        }
+        // integers of 20..31 bits (capped by the current size)
+        2 => {
+            let bits = (kmax.max(20) as u64).min(20 + rng.below(12));
+            Dy::norm(sign(rng) * (rng.below(1u64 << bits) as i128 | 1i128 << (bits - 1)), 0)
+        }
+        // very few distinct values: ties, repeated components, both extremes
+        _ => *rng.pick(&[DY0, Dy { m: 1, e: 0 }, Dy { m: -1, e: 0 }, Dy { m: 1, e: kmax }, Dy { m: -1, e: kmax }, Dy { m: 1, e: kmax / 2 }, Dy { m: 1, e: -kmax }, Dy { m: 3, e: kmax - 1 }]),
+    }
+}
+
+/// a wide-magnitude case of the given type with its fairness mask; of a few candidates the one
+/// with the most battery entries whose exact evaluation stays representable (plus a bonus for
+/// an exponent spread above 30 bits) is kept
+fn gen_wide(rng: &mut Rng, ty: &str, kmax: i32) -> String {
+    let k = if ty == "realw" { 3 } else { 6 };
+    let mut best: Option<(usize, String)> = None;
+    for _ in 0..4 {
+        let fam = rng.below(5); // 4 = mixed per component
+        let neg_exp = rng.chance(1, 3);
+        let v: Vec<Dy> = (0..k)
+            .map(|_| {
+                let f = if fam == 4 { rng.below(4) } else { fam };
+                wide_comp(rng, f, kmax, neg_exp)
+            })
+            .collect();
+        let want = match ty {
+            "realw" => realw_want(&v),
+            "cxw" => cxw_want(&v),
+            _ => euw_want(&v),
+        };
+        let mask: String = want.iter().map(|w| if w.is_some() { '1' } else { '0' }).collect();
+        // prefer many fair entries, and operands whose magnitudes are far apart
+        let score = want.iter().filter(|w| w.is_some()).count() + if spread(&v) > 30 { want.len() / 2 } else { 0 };
+        let case = format!("{ty} {mask} {}", v.iter().map(|d| d.show()).collect::<Vec<_>>().join(" "));
+        if best.as_ref().map_or(true, |b| score > b.0) {
+            best = Some((score, case));
+        }
+    }
+    best.unwrap().1
+}
+
 pub fn gen(rng: &mut Rng, idx: usize, n: usize, thorough: bool) -> String {
     let mut i = idx;
     // A: every triple of residues of the small primes
@@ -116,31 +205,56 @@ pub fn gen(rng: &mut Rng, idx: usize, n: usize, thorough: bool) -> String {
         return format!("ff {p} {} {} {}", b[(i / 8) % 8], b[i % 8], b[rng.below(8) as usize]);
     }
     i -= 7 * 64;
+    // C2: the same for the further moduli of the generic type
+    if i < 7 * 64 {
+        let p = EXTRA[i / 64];
+        let b = boundary(p);
+        return format!("ff {p} {} {} {}", b[(i / 8) % 8], b[i % 8], b[rng.below(8) as usize]);
+    }
+    i -= 7 * 64;
     // D (thorough): every triple of boundary residues
     if thorough {
-        if i < 7 * 512 {
-            let p = EXPORTED[i / 512];
+        if i < 14 * 512 {
+            let p = if i < 7 * 512 { EXPORTED[i / 512] } else { EXTRA[i / 512 - 7] };
             let b = boundary(p);
             return format!("ff {p} {} {} {}", b[(i / 64) % 8], b[(i / 8) % 8], b[i % 8]);
         }
     }
     // E: random, sizes growing with the index
     let late = idx * 2 > n;
-    match rng.below(20) {
+    let prefix = 1834 + 8 + 14 * 64 + if thorough { 14 * 512 } else { 0 };
+    // largest binary exponent of the wide-magnitude f64 streams: 8 .. 60
+    // (reached half way through the random part)
+    let kmax = (8 + 104 * idx.saturating_sub(prefix) / n.saturating_sub(prefix).max(1)).min(60) as i32;
+    match rng.below(26) {
         0..=6 => {
-            let p = if rng.chance(1, 8) { *rng.pick(&SMALL) } else { *rng.pick(&EXPORTED) };
+            let p = if rng.chance(1, 8) {
+                *rng.pick(&SMALL)
+            } else if rng.chance(2, 5) {
+                *rng.pick(&EXTRA)
+            } else {
+                *rng.pick(&EXPORTED)
+            };
             let mut v = [0u128; 3];
             for x in v.iter_mut() {
-                *x = match rng.below(8) {
+                *x = match rng.below(9) {
                     0 => *rng.pick(&boundary(p.max(4))) % p.max(1),
                     1 => r128(rng),                                   // raw, reduced by new()
                     2 => u128::MAX - rng.below(4) as u128,            // top of the u128 range
                     3 => p + rng.below(3) as u128,                    // just above the modulus
+                    // around a limb / word boundary: 2^k - 1, 2^k, 2^k + 1 for k in 32,64,96 and random k
+                    4 => {
+                        let k = if rng.coin() { *rng.pick(&[32u32, 64, 96]) } else { rng.range(1, 127) as u32 };
+                        ((1u128 << k) + rng.below(3) as u128 - 1) % p
+                    }
                     _ => r128(rng) % p,
                 };
             }
             format!("ff {p} {} {} {}", v[0], v[1], v[2])
         }
+        20..=21 => gen_wide(rng, "realw", kmax),
+        22..=24 => gen_wide(rng, "cxw", kmax),
+        25 => gen_wide(rng, "euw", kmax),
         7..=9 => format!("real {} {} {}", dyadic(rng, late), dyadic(rng, late), dyadic(rng, late)),
         10..=12 => {
             let mut s = "eu".to_string();
@@ -316,6 +430,126 @@ fn f64_exact(x: f64) -> String {
     }
 }
 
+/// exact dyadic number m * 2^e (m odd, or m = 0 and e = 0): the values of the wide-magnitude
+/// streams.  `add`/`mul` take f64-representable operands (|m| < 2^53) and return None when the
+/// exact result is not representable in f64, so i128 never overflows (see the bounds below).
+#[derive(Clone, Copy, PartialEq, Debug)]
+struct Dy {
+    m: i128,
+    e: i32,
+}
+const DY0: Dy = Dy { m: 0, e: 0 };
+const DY1: Dy = Dy { m: 1, e: 0 };
+impl Dy {
+    fn norm(mut m: i128, mut e: i32) -> Dy {
+        if m == 0 {
+            return DY0;
+        }
+        let t = m.trailing_zeros() as i32;
+        m >>= t; // exact: the t low bits are zero (also for negative m)
+        e += t;
+        Dy { m, e }
+    }
+    /// representable as a normal f64, with a wide safety margin on the exponent
+    fn rep(self) -> bool {
+        self.m.unsigned_abs() < (1u128 << 53) && (-900..=900).contains(&self.e)
+    }
+    fn chk(self) -> Option<Dy> {
+        if self.rep() {
+            Some(self)
+        } else {
+            None
+        }
+    }
+    fn mul(self, o: Dy) -> Option<Dy> {
+        assert!(self.rep() && o.rep());
+        Dy::norm(self.m * o.m, self.e + o.e).chk() // |m1 m2| < 2^106
+    }
+    fn add(self, o: Dy) -> Option<Dy> {
+        assert!(self.rep() && o.rep());
+        if self.m == 0 {
+            return Some(o);
+        }
+        if o.m == 0 {
+            return Some(self);
+        }
+        let (hi, lo) = if self.e >= o.e { (self, o) } else { (o, self) };
+        let d = hi.e - lo.e;
+        if d > 70 {
+            // hi.m 2^d + lo.m is odd and at least 2^d - 2^53 >= 2^53 in magnitude: 54 or more significant bits
+            return None;
+        }
+        Dy::norm((hi.m << d) + lo.m, lo.e).chk() // |hi.m 2^d| < 2^123
+    }
+    fn neg(self) -> Dy {
+        Dy { m: -self.m, e: self.e }
+    }
+    fn sub(self, o: Dy) -> Option<Dy> {
+        self.add(o.neg())
+    }
+    fn cmp(self, o: Dy) -> std::cmp::Ordering {
+        use std::cmp::Ordering::*;
+        if self.m == 0 || o.m == 0 || (self.m < 0) != (o.m < 0) {
+            return self.m.signum().cmp(&o.m.signum());
+        }
+        let (hi_is_self, hi, lo) = if self.e >= o.e { (true, self, o) } else { (false, o, self) };
+        let d = hi.e - lo.e;
+        if d > 70 {
+            // |hi| >= 2^71 |unit| > |lo|: the one with the larger exponent dominates
+            return if hi_is_self == (hi.m > 0) { Greater } else { Less };
+        }
+        let (a, b) = if hi_is_self { (hi.m << d, lo.m) } else { (lo.m, hi.m << d) };
+        a.cmp(&b)
+    }
+    fn lt(self, o: Dy) -> bool {
+        self.cmp(o) == std::cmp::Ordering::Less
+    }
+    fn max(self, o: Dy) -> Dy {
+        if self.lt(o) {
+            o
+        } else {
+            self
+        }
+    }
+    fn min(self, o: Dy) -> Dy {
+        if o.lt(self) {
+            o
+        } else {
+            self
+        }
+    }
+    fn show(self) -> String {
+        format!("{}p{}", self.m, self.e)
+    }
+    fn parse(s: &str) -> Dy {
+        let (m, e) = s.split_once('p').expect("m p e");
+        let d = Dy::norm(m.parse().unwrap(), e.parse().unwrap());
+        assert!(d.rep(), "operand not representable in f64");
+        d
+    }
+    /// exact: |m| < 2^53 converts exactly, 2^e is built from its bit pattern, the product is a normal f64
+    fn to_f64(self) -> f64 {
+        assert!(self.rep());
+        (self.m as f64) * f64::from_bits(((self.e + 1023) as u64) << 52)
+    }
+}
+
+/// the exact value of a finite f64 in the form m p e (m odd), from its bit pattern
+fn f64_dy(x: f64) -> String {
+    if x.is_nan() {
+        return "NAN".into();
+    }
+    if x.is_infinite() {
+        return "INF".into();
+    }
+    let bits = x.to_bits();
+    let neg = bits >> 63 == 1;
+    let e = ((bits >> 52) & 0x7ff) as i32;
+    let frac = (bits & ((1u64 << 52) - 1)) as i128;
+    let (m, ex) = if e == 0 { (frac, -1074) } else { (frac | (1i128 << 52), e - 1075) };
+    Dy::norm(if neg { -m } else { m }, ex).show()
+}
+
 fn check(fails: &mut Vec<String>, what: &str, got: &str, want: &str) {
     if got != want {
         fails.push(format!("{what}: implementation {got}, exact arithmetic {want}"));
@@ -424,6 +658,13 @@ fn ff_dispatch(p: u128, a: u128, b: u128, c: u128, fails: &mut Vec<String>, st: 
         primes::U128_LARGE_2,
         primes::U128_LARGE_3,
         primes::U128_LARGE_4,
+        M61,
+        M89,
+        P96,
+        M107,
+        M127,
+        C127,
+        T127,
         2,
         3,
         5,
@@ -438,9 +679,6 @@ fn ff_dispatch(p: u128, a: u128, b: u128, c: u128, fails: &mut Vec<String>, st: 
 fn rs(f: Fr) -> RealSemiring {
     RealSemiring(f.to_f64())
 }
-fn show_r(x: RealSemiring) -> String {
-    f64_exact(x.0)
-}
 fn b01(b: bool) -> &'static str {
     if b {
         "1"
@@ -449,10 +687,11 @@ fn b01(b: bool) -> &'static str {
     }
 }
 
-fn real_battery(a: Fr, b: Fr, c: Fr, fails: &mut Vec<String>) -> String {
-    let (x, y, z) = (rs(a), rs(b), rs(c));
+/// the RealSemiring battery on the implementation; `sh` prints an f64 exactly
+fn real_impl(x: RealSemiring, y: RealSemiring, z: RealSemiring, sh: &dyn Fn(f64) -> String) -> Vec<String> {
+    let show_r = |v: RealSemiring| sh(v.0);
     let (one, zero) = (RealSemiring::one(), RealSemiring::zero());
-    let got: Vec<String> = vec![
+    vec![
         show_r(x + y),
         show_r(x * y),
         show_r(x - y),
@@ -478,7 +717,12 @@ fn real_battery(a: Fr, b: Fr, c: Fr, fails: &mut Vec<String>) -> String {
         show_r(x * one),
         show_r(x + zero),
         show_r(x * zero),
-    ];
+    ]
+}
+
+fn real_battery(a: Fr, b: Fr, c: Fr, fails: &mut Vec<String>) -> String {
+    let (x, y, z) = (rs(a), rs(b), rs(c));
+    let got = real_impl(x, y, z, &f64_exact);
     let want: Vec<String> = vec![
         a.add(b).show(),
         a.mul(b).show(),
@@ -516,14 +760,11 @@ fn real_battery(a: Fr, b: Fr, c: Fr, fails: &mut Vec<String>) -> String {
     got.join(" ")
 }
 
-fn show_cx(x: Complex) -> String {
-    format!("{},{}", f64_exact(x.re), f64_exact(x.im))
-}
-fn cx_battery(v: &[Fr], fails: &mut Vec<String>) -> String {
-    let mk = |r: Fr, i: Fr| Complex { re: r.to_f64(), im: i.to_f64() };
-    let (x, y, z) = (mk(v[0], v[1]), mk(v[2], v[3]), mk(v[4], v[5]));
+/// the Complex battery on the implementation (`wide`: two more entries, used by the cxw stream)
+fn cx_impl(x: Complex, y: Complex, z: Complex, sh: &dyn Fn(f64) -> String, wide: bool) -> Vec<String> {
+    let show_cx = |v: Complex| format!("{},{}", sh(v.re), sh(v.im));
     let (one, zero) = (Complex::one(), Complex::zero());
-    let got: Vec<String> = vec![
+    let mut got: Vec<String> = vec![
         show_cx(x + y),
         show_cx(x * y),
         show_cx(x - y),
@@ -541,6 +782,17 @@ fn cx_battery(v: &[Fr], fails: &mut Vec<String>) -> String {
         show_cx(x * zero),
         show_cx((x + y) - y),
     ];
+    if wide {
+        got.push(show_cx(one * x));
+        got.push(show_cx((y + z) * x));
+    }
+    got
+}
+
+fn cx_battery(v: &[Fr], fails: &mut Vec<String>) -> String {
+    let mk = |r: Fr, i: Fr| Complex { re: r.to_f64(), im: i.to_f64() };
+    let (x, y, z) = (mk(v[0], v[1]), mk(v[2], v[3]), mk(v[4], v[5]));
+    let got = cx_impl(x, y, z, &f64_exact, false);
     type C2 = (Fr, Fr);
     let add = |a: C2, b: C2| (a.0.add(b.0), a.1.add(b.1));
     let sub = |a: C2, b: C2| (a.0.sub(b.0), a.1.sub(b.1));
@@ -571,12 +823,9 @@ fn cx_battery(v: &[Fr], fails: &mut Vec<String>) -> String {
     got.join(" ")
 }
 
-fn show_eu(x: ExpectedUtility) -> String {
-    format!("{},{}", f64_exact(x.0), f64_exact(x.1))
-}
-fn eu_battery(v: &[Fr], fails: &mut Vec<String>, st: &mut Stats) -> String {
-    let mk = |p: Fr, u: Fr| ExpectedUtility(p.to_f64(), u.to_f64());
-    let (x, y, z) = (mk(v[0], v[1]), mk(v[2], v[3]), mk(v[4], v[5]));
+/// the ExpectedUtility battery on the implementation (`wide`: two more entries, used by the euw stream)
+fn eu_impl(x: ExpectedUtility, y: ExpectedUtility, z: ExpectedUtility, sh: &dyn Fn(f64) -> String, wide: bool, st: &mut Stats) -> Vec<String> {
+    let show_eu = |v: ExpectedUtility| format!("{},{}", sh(v.0), sh(v.1));
     let (one, zero) = (ExpectedUtility::one(), ExpectedUtility::zero());
     let cmp = match x.partial_cmp(&y) {
         Some(std::cmp::Ordering::Less) => "L",
@@ -585,7 +834,7 @@ fn eu_battery(v: &[Fr], fails: &mut Vec<String>, st: &mut Stats) -> String {
         None => "N",
     };
     st.bump(&format!("eu_partial_cmp={cmp}"));
-    let got: Vec<String> = vec![
+    let mut got: Vec<String> = vec![
         show_eu(x + y),
         show_eu(x * y),
         show_eu(x - y),
@@ -613,6 +862,17 @@ fn eu_battery(v: &[Fr], fails: &mut Vec<String>, st: &mut Stats) -> String {
         show_eu(x + zero),
         show_eu(x * zero),
     ];
+    if wide {
+        got.push(show_eu(one * x));
+        got.push(show_eu((y + z) * x));
+    }
+    got
+}
+
+fn eu_battery(v: &[Fr], fails: &mut Vec<String>, st: &mut Stats) -> String {
+    let mk = |p: Fr, u: Fr| ExpectedUtility(p.to_f64(), u.to_f64());
+    let (x, y, z) = (mk(v[0], v[1]), mk(v[2], v[3]), mk(v[4], v[5]));
+    let got = eu_impl(x, y, z, &f64_exact, false, st);
     type E2 = (Fr, Fr);
     let add = |a: E2, b: E2| (a.0.add(b.0), a.1.add(b.1));
     // E[(p1,u1)*(p2,u2)] = (p1 p2, p1 u2 + u1 p2)
@@ -667,6 +927,209 @@ fn eu_battery(v: &[Fr], fails: &mut Vec<String>, st: &mut Stats) -> String {
         fails.push(format!("ExpectedUtility: {} <= {} but join/choose/meet do not return the larger/smaller", sh(a), sh(b)));
     }
     got.join(" ")
+}
+
+// ------------------------------------------------------------------------------------------
+// wide-magnitude f64 streams (realw / cxw / euw): operands m * 2^e with exponents spread over up
+// to 120 bits.  An entry is *fair* when every exact value occurring in its textbook evaluation
+// (each real product, each real sum, the result) is representable in f64; then any IEEE
+// evaluation of the textbook formula is exact, so the exact value is the only acceptable result.
+type OD = Option<Dy>;
+fn oadd(a: OD, b: OD) -> OD {
+    a.and_then(|a| b.and_then(|b| a.add(b)))
+}
+fn osub(a: OD, b: OD) -> OD {
+    a.and_then(|a| b.and_then(|b| a.sub(b)))
+}
+fn omul(a: OD, b: OD) -> OD {
+    a.and_then(|a| b.and_then(|b| a.mul(b)))
+}
+type OP = Option<(Dy, Dy)>;
+fn padd(a: OP, b: OP) -> OP {
+    let (a, b) = (a?, b?);
+    Some((a.0.add(b.0)?, a.1.add(b.1)?))
+}
+fn psub(a: OP, b: OP) -> OP {
+    let (a, b) = (a?, b?);
+    Some((a.0.sub(b.0)?, a.1.sub(b.1)?))
+}
+/// (a + bi)(c + di) = (ac - bd) + (ad + bc)i, all four products and both sums representable
+fn cmul(a: OP, b: OP) -> OP {
+    let (a, b) = (a?, b?);
+    Some((a.0.mul(b.0)?.sub(a.1.mul(b.1)?)?, a.0.mul(b.1)?.add(a.1.mul(b.0)?)?))
+}
+/// (p1,u1)(p2,u2) = (p1 p2, p1 u2 + u1 p2)
+fn emul(a: OP, b: OP) -> OP {
+    let (a, b) = (a?, b?);
+    Some((a.0.mul(b.0)?, a.0.mul(b.1)?.add(a.1.mul(b.0)?)?))
+}
+fn shp(a: OP) -> Option<String> {
+    a.map(|a| format!("{},{}", a.0.show(), a.1.show()))
+}
+
+const REALW_NAMES: [&str; 25] = [
+    "x+y", "x*y", "x-y", "(x+y)+z", "x+(y+z)", "(x*y)*z", "x*(y*z)", "x*(y+z)", "x*y+x*z", "one", "zero", "join(x,y)", "meet(x,y)",
+    "BBSemiring::choose", "BBRing::choose", "x<=y", "join(join(x,y),z)", "join(x,join(y,z))", "meet(meet(x,y),z)", "meet(x,meet(y,z))",
+    "(x+y)-y", "y*x", "x*one", "x+zero", "x*zero",
+];
+fn realw_want(v: &[Dy]) -> Vec<Option<String>> {
+    let (a, b, c) = (Some(v[0]), Some(v[1]), Some(v[2]));
+    let sh = |x: OD| x.map(|d| d.show());
+    let d = |x: Dy| Some(x.show());
+    vec![
+        sh(oadd(a, b)),
+        sh(omul(a, b)),
+        sh(osub(a, b)),
+        sh(oadd(oadd(a, b), c)),
+        sh(oadd(a, oadd(b, c))),
+        sh(omul(omul(a, b), c)),
+        sh(omul(a, omul(b, c))),
+        sh(omul(a, oadd(b, c))),
+        sh(oadd(omul(a, b), omul(a, c))),
+        d(DY1),
+        d(DY0),
+        d(v[0].max(v[1])),
+        d(v[0].min(v[1])),
+        d(v[0].max(v[1])),
+        d(v[0].max(v[1])),
+        Some(b01(!v[1].lt(v[0])).to_string()),
+        d(v[0].max(v[1]).max(v[2])),
+        d(v[0].max(v[1]).max(v[2])),
+        d(v[0].min(v[1]).min(v[2])),
+        d(v[0].min(v[1]).min(v[2])),
+        sh(osub(oadd(a, b), b)),
+        sh(omul(b, a)),
+        sh(omul(a, Some(DY1))),
+        sh(oadd(a, Some(DY0))),
+        sh(omul(a, Some(DY0))),
+    ]
+}
+
+const CXW_NAMES: [&str; 18] = [
+    "x+y", "x*y", "x-y", "(x+y)+z", "x+(y+z)", "(x*y)*z", "x*(y*z)", "x*(y+z)", "x*y+x*z", "one", "zero", "y*x", "x*one", "x+zero", "x*zero",
+    "(x+y)-y", "one*x", "(y+z)*x",
+];
+fn cxw_want(v: &[Dy]) -> Vec<Option<String>> {
+    let (a, b, c) = (Some((v[0], v[1])), Some((v[2], v[3])), Some((v[4], v[5])));
+    let (one, zero) = (Some((DY1, DY0)), Some((DY0, DY0)));
+    vec![
+        shp(padd(a, b)),
+        shp(cmul(a, b)),
+        shp(psub(a, b)),
+        shp(padd(padd(a, b), c)),
+        shp(padd(a, padd(b, c))),
+        shp(cmul(cmul(a, b), c)),
+        shp(cmul(a, cmul(b, c))),
+        shp(cmul(a, padd(b, c))),
+        shp(padd(cmul(a, b), cmul(a, c))),
+        shp(one),
+        shp(zero),
+        shp(cmul(b, a)),
+        shp(cmul(a, one)),
+        shp(padd(a, zero)),
+        shp(cmul(a, zero)),
+        shp(psub(padd(a, b), b)),
+        shp(cmul(one, a)),
+        shp(cmul(padd(b, c), a)),
+    ]
+}
+
+const EUW_NAMES: [&str; 28] = [
+    "x+y", "x*y", "x-y", "(x+y)+z", "x+(y+z)", "(x*y)*z", "x*(y*z)", "x*(y+z)", "x*y+x*z", "one", "zero", "join(x,y)", "meet(x,y)",
+    "BBSemiring::choose", "BBRing::choose", "partial_cmp", "x<=y", "join(join(x,y),z)", "join(x,join(y,z))", "meet(meet(x,y),z)",
+    "meet(x,meet(y,z))", "(x+y)-y", "y*x", "x*one", "x+zero", "x*zero", "one*x", "(y+z)*x",
+];
+fn euw_want(v: &[Dy]) -> Vec<Option<String>> {
+    let (pa, pb, pc) = ((v[0], v[1]), (v[2], v[3]), (v[4], v[5]));
+    let (a, b, c) = (Some(pa), Some(pb), Some(pc));
+    let (one, zero) = (Some((DY1, DY0)), Some((DY0, DY0)));
+    type E2 = (Dy, Dy);
+    let join = |a: E2, b: E2| (a.0.max(b.0), a.1.max(b.1));
+    let meet = |a: E2, b: E2| (a.0.min(b.0), a.1.min(b.1));
+    // the order as documented by the code: strict in both components, or equal
+    let ocmp = if pa.0.lt(pb.0) && pa.1.lt(pb.1) {
+        "L"
+    } else if pb.0.lt(pa.0) && pb.1.lt(pa.1) {
+        "G"
+    } else if pa == pb {
+        "E"
+    } else {
+        "N"
+    };
+    let ochoose = if pb.1.lt(pa.1) { pa } else { pb };
+    vec![
+        shp(padd(a, b)),
+        shp(emul(a, b)),
+        shp(psub(a, b)),
+        shp(padd(padd(a, b), c)),
+        shp(padd(a, padd(b, c))),
+        shp(emul(emul(a, b), c)),
+        shp(emul(a, emul(b, c))),
+        shp(emul(a, padd(b, c))),
+        shp(padd(emul(a, b), emul(a, c))),
+        shp(one),
+        shp(zero),
+        shp(Some(join(pa, pb))),
+        shp(Some(meet(pa, pb))),
+        shp(Some(ochoose)),
+        shp(Some(ochoose)),
+        Some(ocmp.to_string()),
+        Some(b01(ocmp == "L" || ocmp == "E").to_string()),
+        shp(Some(join(join(pa, pb), pc))),
+        shp(Some(join(join(pa, pb), pc))),
+        shp(Some(meet(meet(pa, pb), pc))),
+        shp(Some(meet(meet(pa, pb), pc))),
+        shp(psub(padd(a, b), b)),
+        shp(emul(b, a)),
+        shp(emul(a, one)),
+        shp(padd(a, zero)),
+        shp(emul(a, zero)),
+        shp(emul(one, a)),
+        shp(emul(padd(b, c), a)),
+    ]
+}
+
+/// largest distance between the binary exponents (position of the leading bit) of two non-zero operand components
+fn spread(v: &[Dy]) -> i32 {
+    let top: Vec<i32> = v.iter().filter(|d| d.m != 0).map(|d| d.e + 128 - d.m.unsigned_abs().leading_zeros() as i32).collect();
+    match (top.iter().max(), top.iter().min()) {
+        (Some(h), Some(l)) => h - l,
+        _ => 0,
+    }
+}
+
+/// print the entries marked 1 in the case's mask, compare each with exact arithmetic
+fn wide_masked(ty: &str, mask: &str, ops: &[Dy], got: Vec<String>, want: Vec<Option<String>>, names: &[&str], fails: &mut Vec<String>, st: &mut Stats) -> String {
+    let opsh = ops.iter().map(|d| d.show()).collect::<Vec<_>>().join(" ");
+    if mask.len() != got.len() || want.len() != got.len() || names.len() != got.len() {
+        fails.push(format!("{ty}: malformed case, mask of length {} for a battery of {}", mask.len(), got.len()));
+        return "BADMASK".into();
+    }
+    let sp = spread(ops);
+    st.bump(&format!("{ty}_exponent_spread={}", if sp <= 26 { "0..26" } else if sp <= 53 { "27..53" } else { "54.." }));
+    let mut out = vec![];
+    for i in 0..got.len() {
+        if mask.as_bytes()[i] != b'1' {
+            out.push("~".to_string());
+            continue;
+        }
+        out.push(got[i].clone());
+        match &want[i] {
+            None => fails.push(format!("{ty}: malformed case, the mask marks {} as exactly representable on {opsh} but exact arithmetic says it is not", names[i])),
+            Some(w) => {
+                if sp > 26 {
+                    st.bump(&format!("{ty}_fair_entries_with_spread>26"));
+                }
+                if &got[i] != w {
+                    fails.push(format!(
+                        "{ty} {} on operands {opsh} (written m p e = m*2^e): implementation {}, exact arithmetic {w}; the operands and every exact product, sum and result of this expression are representable in f64",
+                        names[i], got[i]
+                    ));
+                }
+            }
+        }
+    }
+    out.join(" ")
 }
 
 // ------------------------------------------------------------------------------------------
@@ -887,6 +1350,28 @@ pub fn run(case: &str, st: &mut Stats) -> Outcome {
         "eu" => {
             let v = frs(1, 6);
             (eu_battery(&v, &mut fails, st), nontriv_fr(&v))
+        }
+        "realw" | "cxw" | "euw" => {
+            let k = if t[0] == "realw" { 3 } else { 6 };
+            let v: Vec<Dy> = (0..k).map(|i| Dy::parse(t[2 + i])).collect();
+            let f: Vec<f64> = v.iter().map(|d| d.to_f64()).collect();
+            let r = match t[0] {
+                "realw" => {
+                    let got = real_impl(RealSemiring(f[0]), RealSemiring(f[1]), RealSemiring(f[2]), &f64_dy);
+                    wide_masked("realw", t[1], &v, got, realw_want(&v), &REALW_NAMES, &mut fails, st)
+                }
+                "cxw" => {
+                    let mk = |i: usize| Complex { re: f[i], im: f[i + 1] };
+                    let got = cx_impl(mk(0), mk(2), mk(4), &f64_dy, true);
+                    wide_masked("cxw", t[1], &v, got, cxw_want(&v), &CXW_NAMES, &mut fails, st)
+                }
+                _ => {
+                    let mk = |i: usize| ExpectedUtility(f[i], f[i + 1]);
+                    let got = eu_impl(mk(0), mk(2), mk(4), &f64_dy, true, st);
+                    wide_masked("euw", t[1], &v, got, euw_want(&v), &EUW_NAMES, &mut fails, st)
+                }
+            };
+            (r, v.iter().filter(|d| !(d.m == 0 || **d == DY1)).count() >= 2)
         }
         "rat" => {
             let (a, b, c): (u64, u64, u64) = (t[1].parse().unwrap(), t[2].parse().unwrap(), t[3].parse().unwrap());
